@@ -344,6 +344,8 @@ func (d *Device) ProcessEvents(inputEvents <-chan *input.InputEvent) {
 		log.Info("active midi notes cleanup", d.logFields(logger.Debug)...)
 	}
 
+	// the LED refresh goroutine walks the trackers under this mutex until it notices the cancellation
+	d.eventProcessMutex.Lock()
 	for evcode := range d.noteTracker {
 		d.NoteOff(&input.InputEvent{
 			Source: input.Handler{
@@ -361,6 +363,7 @@ func (d *Device) ProcessEvents(inputEvents <-chan *input.InputEvent) {
 	for identifier := range d.analogNoteTracker {
 		d.AnalogNoteOff(identifier, &input.InputEvent{})
 	}
+	d.eventProcessMutex.Unlock()
 
 	log.Info("virtual midi device waiting...", d.logFields(logger.Debug)...)
 	wg.Wait()
